@@ -49,7 +49,7 @@ def r1(c):
     var = loop.target.id
     gm = GuardMap(fn)
     calls = [x for x in calls_in(loop) if call_name(x).split(".")[-1] == "apply_acl_diff"]
-    abrupt = [n for n in walk_no_nested(loop) if isinstance(n, (ast.Break, ast.Continue, ast.Return))]
+    abrupt = [n for n in walk_no_nested(loop) if isinstance(n, (ast.Break, ast.Return))]
     c.check("C02.R1", not abrupt, repo.loc(m, abrupt[0] if abrupt else loop), "make_diff/acl-loop/no-exit",
             f"`{norm(abrupt[0]) if abrupt else ''}` inside the ACL loop: later ACLs of the list are skipped", key_text="loop-exit")
     if len(calls) != 1:
